@@ -136,7 +136,8 @@ class Identification(Harness):
 
 
 def tasks(tier, seed):
-    alphabet = ALPHABET if tier == "thorough" else [k for k in ALPHABET_QUICK if k != "dup_fragment"] + ["dup_exception"]
+    alphabet = ALPHABET if tier == "thorough" else ["drop", "answer", "exception", "two_fragments", "peer_closes", "send_error",
+                                                     "dup_exception"]
     cfgs = [c for c in CONFIGS_QUICK if c["retries"] >= 1]
     ts = H.make_tasks(PROP, cfgs, alphabet, [[]])
     if tier == "quick":
